@@ -65,7 +65,11 @@ def same_node(a, b):
         return False
     if ta in (3, 5):
         return (a["bid"] or "") == (b["bid"] or "")
-    return a["gid"] == b["gid"]
+    ga, gb = a["gid"], b["gid"]
+    if ga is None or gb is None:
+        return ga is None and gb is None
+    pad = lambda g: (g["d1"], g["d2"], g["d3"], (g["d4"] + "00" * 8)[:16])      # a short Data4 denotes the zero-padded GUID
+    return pad(ga) == pad(gb)
 
 
 FAMILY = {0: "numeric", 1: "numeric", 2: "numeric", 3: "string", 4: "guid", 5: "opaque"}
@@ -79,10 +83,6 @@ def oracle(o):
         t = n["mask"] & 15
         ctor = (o.get("in") or {}).get("ctor")
         if not o["wf"]:
-            if ctor == "NewGUIDNodeID" and o["str"]["code"] == 0 and (o.get("parse") or {}).get("code", 0) != 0:
-                return ("guid-unparsable-string", "%s: String() = %r, which ParseNodeID rejects" % (o["how"], bytes.fromhex(o["str"]["s"]).decode("latin1")))
-            if t == 4 and n["gid"] is not None and len(n["gid"]["d4"]) < 4 and o["str"]["code"] == 99:
-                return ("guid-short-data4", "GUID id with %d Data4 bytes: String() panics" % (len(n["gid"]["d4"]) // 2))
             return None
         fam = FAMILY.get(t, "type%d" % t)
         if o["str"]["code"] != 0:
